@@ -79,6 +79,9 @@ func (o *in) fireCmd() error {
 											wr.Close()
 					*/
 					cmd.Process.Kill()
+					// the process must be waited for, otherwise it stays a zombie until the
+					// program ends (one for every time the port is closed)
+					go cmd.Wait()
 				}
 				o.Lock()
 				o.hasProc = false
